@@ -16,6 +16,7 @@ import gc
 import queue as _queue
 import sys
 import threading as _threading
+import _thread
 import time as _time
 import types
 
@@ -26,6 +27,45 @@ WATCHDOG = 20.0          # real seconds a controlled thread may run between two 
 T0 = 1_000_000.0         # virtual epoch
 
 
+class _Baton:
+    """binary semaphore on a raw lock (threading.Semaphore is a Python-level Condition and ~20x slower);
+    every release is matched by exactly one acquire"""
+    __slots__ = ('_l',)
+
+    def __init__(self):
+        self._l = _thread.allocate_lock()
+        self._l.acquire()
+
+    def release(self):
+        self._l.release()
+
+    def acquire(self, timeout=None):
+        if timeout is None:
+            return self._l.acquire()
+        return self._l.acquire(True, timeout)
+
+
+class _Carrier:
+    """pooled OS thread executing one controlled thread after the other"""
+    def __init__(self):
+        self.wake = _Baton()
+        self.job = None
+        self.ident = _thread.start_new_thread(self.loop, ())
+
+    def loop(self):
+        while True:
+            self.wake.acquire()
+            fn, arg = self.job
+            self.job = None
+            try:
+                fn(arg)
+            finally:
+                _pool.append(self)
+
+
+_pool = []
+
+
 class SchedAbort(BaseException):
     """raised inside controlled threads to unwind them at the end of an execution"""
 
@@ -33,14 +73,15 @@ class SchedAbort(BaseException):
 class CThread:
     def __init__(self, sched, tid, name, fn, daemon):
         self.sched, self.id, self.name, self.fn, self.daemon = sched, tid, name, fn, daemon
-        self.baton = _threading.Semaphore(0)
+        self.baton = _Baton()
         self.pending = ('start', name, None, None)     # (kind, label, enabled_fn, deadline)
         self.wake = 'ok'
         self.done = False
         self.started = False
         self.exc = None
         self.result = None
-        self.os_thread = None
+        self.os_ident = None
+        self.gone = False       # the OS thread has left _thread_main
         self.subject = True      # the execution ends when all subject threads are done
 
     def __repr__(self):
@@ -74,12 +115,14 @@ class Execution:
 
 
 class Scheduler:
-    def __init__(self, prefix=(), max_steps=20000, horizon=None, point_kinds=None, tick=0.0, state_fn=None):
+    def __init__(self, prefix=(), max_steps=20000, horizon=None, point_kinds=None, tick=0.0, state_fn=None, grace=0.0):
         self.prefix = list(prefix)
         self.max_steps = max_steps
         self.horizon = horizon              # virtual seconds after begin(); None = unlimited
         self.kinds = point_kinds            # None = all kinds are scheduling points
         self.tick = tick
+        self.grace = grace                  # virtual seconds the non-subject threads may go on after the subjects are done
+        self.subjects_done_at = None
         self.state_fn = state_fn
         self.now = T0
         self.threads = []
@@ -87,8 +130,8 @@ class Scheduler:
         self.x = Execution()
         self.window = False
         self.window_t0 = None
-        self.finished = _threading.Semaphore(0)
-        self.exited = _threading.Semaphore(0)
+        self.finished = _Baton()
+        self.exited = _Baton()
         self.aborting = False
         self.nlabels = collections.Counter()
         self.log = []                       # harness-visible event log (append only from controlled threads)
@@ -111,8 +154,11 @@ class Scheduler:
         t = CThread(self, len(self.threads), name or f'thread{len(self.threads)}', fn, daemon)
         t.subject = (not daemon) if subject is None else subject
         self.threads.append(t)
-        t.os_thread = _threading.Thread(target=self._thread_main, args=(t,), name=f'schedx-{t.name}', daemon=True)
-        t.os_thread.start()
+        # carrier OS threads are pooled across executions (creating an OS thread costs 0.1 - 4 ms depending on load)
+        c = _pool.pop() if _pool else _Carrier()
+        t.os_ident = c.ident
+        c.job = (self._thread_main, t)
+        c.wake.release()
         return t
 
     def _thread_main(self, t):
@@ -131,10 +177,13 @@ class Scheduler:
             t.done = True
             t.pending = None
             _tls.cthread = None
-            if self.aborting:
-                self.exited.release()
-            else:
-                self._schedule_from(t, finished=True)
+            try:
+                if self.aborting:
+                    self.exited.release()
+                else:
+                    self._schedule_from(t, finished=True)
+            finally:
+                t.gone = True
 
     # ---- the heart: called by the running thread when it reaches a point / finishes
     def point(self, kind, label='', enabled=None, deadline=None):
@@ -181,6 +230,10 @@ class Scheduler:
                 break
             # quiescence: advance virtual time to the earliest deadline
             deadlines = [th.pending[3] for th in self.threads if not th.done and th.pending and th.pending[3] is not None]
+            if not deadlines and self.subjects_done_at is not None:
+                self.end_reason = 'done'        # only non-subject threads are left, blocked for ever: reported as alive
+                nxt = None
+                break
             if not deadlines:
                 x.deadlock = 'no enabled thread: ' + ', '.join(
                     f'{th!r} blocked at {th.pending[0]}:{th.pending[1]}' for th in self.threads if not th.done)
@@ -230,8 +283,11 @@ class Scheduler:
             self.end_reason = 'horizon'
             return True
         if self.threads and all(th.done for th in self.threads if th.subject):
-            self.end_reason = 'done'
-            return True
+            if self.subjects_done_at is None:
+                self.subjects_done_at = self.now
+            if self.grace <= 0 or all(th.done for th in self.threads) or self.now - self.subjects_done_at > self.grace:
+                self.end_reason = 'done'
+                return True
         return False
 
     def _choose_thread(self, running, enabled, finished):
@@ -296,8 +352,9 @@ class Scheduler:
                     t.baton.release()
                     if not self.exited.acquire(timeout=WATCHDOG):
                         raise core.Inconclusive(f'controlled thread {t!r} does not unwind (catches BaseException in a loop?)')
-            for t in self.threads:
-                t.os_thread.join(WATCHDOG)
+            deadline = _time.time() + WATCHDOG
+            while not all(t.gone for t in self.threads) and _time.time() < deadline:
+                _time.sleep(0)
             self.x.threads = self.threads
             self.x.vtime = self.now - T0
             return self.x
@@ -310,8 +367,8 @@ class Scheduler:
         cur = self.current
         frames = sys._current_frames()
         where = ''
-        if cur is not None and cur.os_thread is not None:
-            f = frames.get(cur.os_thread.ident)
+        if cur is not None and cur.os_ident is not None:
+            f = frames.get(cur.os_ident)
             stack = []
             while f is not None and len(stack) < 8:
                 stack.append(f'{f.f_code.co_filename.rsplit("/", 1)[-1]}:{f.f_lineno}:{f.f_code.co_name}')
@@ -752,9 +809,9 @@ def run_one(make_body, prefix, **kw):
     return s, x
 
 
-def explore(execute, bound, dev_bound=0, prefix=(), on_execution=None, max_executions=None):
+def explore(execute, bound, dev_bound=0, prefix=(), on_execution=None, max_executions=None, total_bound=None):
     """depth-first exploration with iterative context bounding (all executions with <= bound preemptions and
-    <= dev_bound environment deviations).
+    <= dev_bound environment deviations; total_bound, if given, additionally limits preemptions + deviations).
 
     execute(prefix) -> Execution (must replay `prefix` exactly, then take choice 0 everywhere)
     on_execution(x)   called for every complete execution (oracle)
@@ -777,10 +834,11 @@ def explore(execute, bound, dev_bound=0, prefix=(), on_execution=None, max_execu
             if i >= len(pfx):
                 for alt in range(1, p.enabled):
                     if p.kind == 'sched':
-                        if pre + (1 if p.running_enabled else 0) <= bound:
+                        c = 1 if p.running_enabled else 0
+                        if pre + c <= bound and (total_bound is None or pre + c + dev <= total_bound):
                             stack.append(x.choices[:i] + [alt])
                     else:
-                        if dev + 1 <= dev_bound:
+                        if dev + 1 <= dev_bound and (total_bound is None or pre + dev + 1 <= total_bound):
                             stack.append(x.choices[:i] + [alt])
             if p.chosen:
                 if p.kind == 'sched':
